@@ -231,6 +231,8 @@ STATEMENTS = {
     'named': ('SELECT account, count(*) AS n WHERE account ~ %(pat)s AND year = %(y)s GROUP BY account ORDER BY account', {'pat': 'Expenses', 'y': 2020}),
     'open-close': ('SELECT account, sum(position) AS s FROM OPEN ON 2019-07-01 CLOSE ON 2020-07-01 CLEAR GROUP BY account ORDER BY account', None),
     'close': ('SELECT account, balance FROM CLOSE ON 2020-03-01 WHERE account ~ "Assets"', None),
+    'div': ('SELECT date, account, number / 3 AS q, number / 7 * 1.0000000000000000001 AS w, safediv(number, 9) AS z WHERE number != 0', None),
+    'div-agg': ('SELECT account, sum(number) / 7 AS s, sum(number / 3) AS t, count(*) AS n GROUP BY account ORDER BY account', None),
     'open-close-rows': ('SELECT date, narration, account, position, balance FROM OPEN ON 2019-07-01 CLOSE ON 2020-07-01 CLEAR', None),
     'close-count': ('SELECT year, count(*) AS n, sum(position) AS s FROM CLOSE ON 2020-03-01 GROUP BY year ORDER BY year', None),
     'balances': ('BALANCES AT cost FROM year = 2020', None),
@@ -241,7 +243,7 @@ STATEMENTS = {
 }
 PAIRS = [('bal2', 'bal1'), ('bal2', 'bal3'), ('bal3', 'subq-in'), ('units-bal', 'journal'), ('agg', 'agg-year'), ('agg', 'agg'), ('subq-from', 'subq-in'),
          ('param-a', 'param-b'), ('named', 'param-a'), ('open-close', 'close'), ('open-close', 'bal2'), ('balances', 'journal'), ('distinct', 'entries'),
-         ('pivot', 'agg'), ('bal2', 'bal2'), ('close', 'bal1'), ('open-close', 'open-close-rows'), ('close', 'close-count'), ('open-close', 'open-close')]
+         ('pivot', 'agg'), ('bal2', 'bal2'), ('close', 'bal1'), ('open-close', 'open-close-rows'), ('close', 'close-count'), ('open-close', 'open-close'), ('div', 'div-agg'), ('div-agg', 'bal2')]
 
 
 def make_job(conn, text_or_ast, params):
@@ -410,7 +412,7 @@ def stress(ctx):
     Half of the rounds run on a connection opened for that round (nothing derived yet), half on one long-lived connection."""
     rng = ctx.rng('stress')
     led = ledgers.gen_ledger(rng, ntxn=12, with_queries=False)
-    names = ['bal2', 'bal3', 'agg', 'subq-in', 'param-a', 'open-close', 'journal', 'units-bal', 'open-close-rows', 'close', 'close-count', 'open-close']
+    names = ['bal2', 'bal3', 'agg', 'subq-in', 'param-a', 'open-close', 'journal', 'units-bal', 'open-close-rows', 'close', 'close-count', 'open-close', 'div', 'div-agg']
     serial = [outcome_of(make_job(engine.connection(ledger=led.loaded), *STATEMENTS[n])) for n in names]
     long_lived = engine.connection(ledger=led.loaded)
     old = sys.getswitchinterval()
